@@ -6,7 +6,7 @@ patch=$(realpath $1); shift
 S=${SCRATCH_DIR:-/tmp/seedrun}   # several instances may run side by side, each with its own SCRATCH_DIR
 if [ ! -d $S/repo ]; then mkdir -p $S; git -C /repo worktree add --detach $S/repo HEAD -q; fi
 git -C $S/repo checkout -q --detach $(git -C /repo rev-parse HEAD); git -C $S/repo checkout -q -- .
-rsync -a --delete --exclude target /verif/harness/ $S/harness/
+rsync -a --delete --exclude target ${HARNESS_SRC:-/verif/harness}/ $S/harness/   # HARNESS_SRC: a frozen copy, so that /verif/harness can be edited meanwhile
 sed -i "s#path = \"/repo\"#path = \"$S/repo\"#" $S/harness/Cargo.toml
 git -C $S/repo apply $patch || { echo "patch does not apply"; exit 2; }
 for c in "$@"; do
